@@ -12,7 +12,7 @@ RULE = ("Hypothesis-generated (scenario, schedule) cases: 1-5 scripted compliant
         "FIFO-deviation-bounded exhaustive schedule enumeration on curated micro-topologies. Scenarios rejected by "
         "mosaik's own cycle check are counted, not judged. non-trivial = (>= 3 simulators or a connection cycle) "
         "and >= 2 replies pending at once; distinct = distinct case hashes"
-        "; in addition four long runs (until 80 / 120 / 1100) under FIFO, LIFO and a starved simulator, and the "
+        "; in addition six long runs (until 80 / 120 / 1100, strides of hundreds, 24 simulators) under FIFO, LIFO and a starved simulator, and the "
         "extreme policies (LIFO, steps first, get_data first, each simulator starved) before every schedule enumeration")
 ASSUMPTIONS = [
     "simulators are scripted and API-compliant (behaviour tables with loop budgets below max_loop_iterations)",
